@@ -23,6 +23,12 @@ var pureLookupFuncs = []string{
 }
 
 func pureLookups(ic *IC, r *Report, rule string) {
+	pureFuncs(ic, r, rule, pureLookupFuncs, 8, "recomputed-at-each-use",
+		"methods can be declared after the type has been used (a later evaluation, a declaration further down, an embedding type), so a remembered method set or lookup result goes stale and assertions, interface satisfaction or promoted-method resolution silently give the answer of the earlier state", true)
+}
+
+// pureFuncs: each named function stores nothing outside its own locals (see pureLookups).
+func pureFuncs(ic *IC, r *Report, rule string, names []string, floor int, keySuffix, consequence string, memoClause bool) {
 	if ic.SP == nil {
 		r.Errorf("%s: SSA form of package interp not loaded", rule)
 		return
@@ -110,7 +116,7 @@ func pureLookups(ic *IC, r *Report, rule string) {
 		return false
 	}
 	n := 0
-	for _, name := range pureLookupFuncs {
+	for _, name := range names {
 		var fn *ssa.Function
 		if i := strings.Index(name, "."); i >= 0 {
 			fn = ic.ssaMeth(name[:i], name[i+1:])
@@ -182,11 +188,14 @@ func pureLookups(ic *IC, r *Report, rule string) {
 		}
 		visit(fn)
 		sort.Strings(bad)
-		r.Check(len(bad) == 0, rule, name+"/recomputed-at-each-use", ic.pos(fn.Pos()), "stores only into its own locals",
-			fmt.Sprintf("%s keeps state between calls (%s): methods can be declared after the type has been used (a later evaluation, a declaration further down, an embedding type), so a remembered method set or lookup result goes stale and assertions, interface satisfaction or promoted-method resolution silently give the answer of the earlier state", name, strings.Join(dedupStr(bad), "; ")))
+		r.Check(len(bad) == 0, rule, name+"/"+keySuffix, ic.pos(fn.Pos()), "stores only into its own locals",
+			fmt.Sprintf("%s keeps state between calls (%s): %s", name, strings.Join(dedupStr(bad), "; "), consequence))
 	}
-	if n < 8 {
-		r.Errorf("%s: only %d of the method-resolution functions found", rule, n)
+	if n < floor {
+		r.Errorf("%s: only %d of the functions %v found", rule, n, names)
+	}
+	if !memoClause {
+		return
 	}
 	// no interpreter-wide memo table: nothing in package interp mutates a sync.Map (there is
 	// none today); such a table keyed by interpreter type outlives the facts it was computed from
